@@ -273,7 +273,7 @@ func (ch *c20Chain) served(run int, w *c20Writer) {
 
 func c20RandDesc(rng *rand.Rand, k int) *c20Desc {
 	d := &c20Desc{ID: "c20rnd" + strconv.Itoa(k),
-		Params0: c20Params{MaxBytes: 1048576, MaxGas: -1, Iota: 1000, EvAgeBlocks: 100000, EvAgeDur: 48, EvMaxBytes: 1000,
+		Params0: c20Params{MaxBytes: 1048576, MaxGas: -1, Iota: 1000, EvAgeBlocks: 100000, EvAgeDur: 48, EvMaxBytes: 100000,
 			PkTypes: []string{"ed25519"}, AppVersion: 0},
 		KV0: []c20Store{{Store: "s1", KVs: []c20KV{{"k1", "v0"}, {"k2", "v0"}, {"k3", "v0"}}}, {Store: "s2", KVs: []c20KV{{"k1", "w0"}}}},
 		TxInfo: []c20TxInfo{}, Blocks: []c20BlockDesc{}}
@@ -285,7 +285,19 @@ func c20RandDesc(rng *rand.Rand, k int) *c20Desc {
 	ntx := 0
 	valDone, parDone := false, false
 	for h := 1; h <= n; h++ {
-		b := c20BlockDesc{Txs: []string{}, BBE: []string{}, EBE: []string{}, ValUpd: []c20ValUpd{}, ParUpd: []c20ParUpd{}}
+		b := c20BlockDesc{Txs: []string{}, BBE: []string{}, EBE: []string{}, ValUpd: []c20ValUpd{}, ParUpd: []c20ParUpd{}, Ev: []c20Ev{}}
+		if h >= 3 && !valDone && rng.Intn(3) == 0 { // validator set still the genesis one: names and powers are known
+			sh := strconv.Itoa(h)
+			if rng.Intn(2) == 0 {
+				b.Ev = append(b.Ev, c20Ev{Ty: "dup", ID: "dv" + sh, Byz: []string{}, TVP: int64(10 * nv), VPow: 10, Ts: int64(1000 + h - 2), CSigs: []string{}})
+			}
+			cs := []string{}
+			for i := 1; i <= nv; i++ {
+				cs = append(cs, "cs"+sh+"_"+strconv.Itoa(i))
+			}
+			b.Ev = append(b.Ev, c20Ev{Ty: "lca", ID: "cb" + sh, Common: int64(1 + rng.Intn(h-2)), CH: int64(h - 1), Byz: []string{"v1", "v2"}[:1+rng.Intn(2)],
+				TVP: int64(10 * nv), Ts: int64(1000 + rng.Intn(3)), CSigs: cs})
+		}
 		for j := rng.Intn(5); j > 0 && h < n; j-- {
 			ntx++
 			name := "t" + strconv.Itoa(ntx)
@@ -325,6 +337,7 @@ func c20RandDesc(rng *rand.Rand, k int) *c20Desc {
 }
 
 var c20Hows = map[string][]string{
+	"idj": {"sjunk"}, "intx": {"inc", "zero", "neg"},
 	"hash": {"hjunk", "hbad", "hempty", "other"}, "int": {"inc", "zero", "neg", "other"}, "uint": {"inc", "zero", "other"},
 	"id": {"sjunk", "other"},
 }
